@@ -332,7 +332,7 @@ pub fn n_values(tier: Tier, rng: &mut Rng) -> Vec<u64> {
                     v.push((b as i64 + d) as u64);
                 }
             }
-            for _ in 0..24 {
+            for _ in 0..60 {
                 v.push(rng.below(max + 1));
             }
             v.push(max);
@@ -429,7 +429,7 @@ pub fn run(ctx: &Ctx) -> Report {
             }
         }
         // other source backends (library ones), sampled
-        for _ in 0..ctx.pick(2, 200, 5000) {
+        for _ in 0..ctx.pick(2, 1500, 8000) {
             let be = *rng.pick(&RBackend::ALL);
             let prefix = rng.pick(&states).clone();
             let case = Case {
